@@ -200,7 +200,9 @@ def routine_cases(draw, tier):
             M = np.hstack([core, g.array((m, c - m), dt, -2, 2)]) if c >= r else np.vstack([core, g.array((r - m, m), dt, -2, 2)])
             case["tree"] = g._dense_like(M, dt)
         elif kind == "diag":
-            case["tree"] = {"k": "diag", "d": gen.enc(g.ints(r, 1, 5).astype(np.float64))}
+            # entries of both signs and exact zeros (rank deficient), real or complex
+            d = g.ints(r, -2, 4).astype(np.float64)
+            case["tree"] = {"k": "diag", "d": gen.enc(d * (1 + 1j) if g.integer(1, 3) == 1 else d)}
         else:
             case["tree"] = {"k": "eye", "n": r, "dt": "f8"}
         m = min(IR.denote(case["tree"]).shape)
